@@ -23,6 +23,18 @@ def gen_descs(g, tier):
             out.append(lin.gen_scn(g, "measure_int", R=R, D=D, diag=True))
             out.append(lin.gen_scn(g, "marginal", R=R, D=D))
             out.append(lin.gen_scn(g, "linsum", R=R, D=D))
+    # "also after the object has been multiplied": products with every factor kind, both update modes, with and
+    # without a covariance cached by an earlier query, equal and unequal batch sizes > 1, weights g != 1
+    for kind in ("general", "onerank", "linear", "constant"):
+        for op in ("multiply", "hadamard"):
+            for upd in (False, True):
+                for cached in (False, True):
+                    for _ in range(1 if q else 8):
+                        R1 = g.randint(2, 3); D = g.randint(1, 3)
+                        R2 = R1 if (op == "hadamard" or g.randint(0, 1)) else g.randint(2, 3)
+                        d = lin.gen_scn(g, "measure_int", R=R1, D=D)
+                        d["mul"] = dict(op=op, upd=upd, cached=cached, f=C.gen_factor(g, kind, R2, D))
+                        out.append(d)
     for (cls, Rc, Rx, Dy, Dx) in lin.shapes_cond(g, tier, 0 if q else 200):
         if q and (Dy, Dx) == (2, 2) and Rc + Rx > 2:
             continue
